@@ -472,10 +472,21 @@ impl UntypedProgram {
                             }
                         }
                         ConstExprEnum::ExternalValue { party, identifier } => {
-                            const_deps
-                                .entry(party.clone())
-                                .or_default()
-                                .insert(identifier.clone(), (const_def.ty.clone(), meta));
+                            // (a value of another party has one type, no matter how many
+                            // consts are defined by it)
+                            let deps = const_deps.entry(party.clone()).or_default();
+                            match deps.get(identifier) {
+                                Some((ty, _)) if ty != &const_def.ty => {
+                                    let e = TypeErrorEnum::UnexpectedType {
+                                        expected: ty.clone(),
+                                        actual: const_def.ty.clone(),
+                                    };
+                                    errors.extend(vec![Some(TypeError::new(e, meta))]);
+                                }
+                                _ => {
+                                    deps.insert(identifier.clone(), (const_def.ty.clone(), meta));
+                                }
+                            }
                         }
                         ConstExprEnum::ConstExprIdent(ident) => match const_defs.get(ident) {
                             Some(def) => {
